@@ -198,6 +198,34 @@ def tables(ctx):
                 ctx.disagree("tables/strip/preferred", {"request": r[:200]}, m[:400], i[:400])
 
 
+def source_facts(ctx):
+    """source-level facts the model relies on: Transport._verify_key has no way out before the verification
+    (no `return` statement at all; it calls _check_sig_algorithm and verify_ssh_sig), and the server's publickey
+    branch calls _generate_key_from_request / _check_sig_algorithm / verify_ssh_sig."""
+    import ast
+    import inspect
+    import textwrap
+    from paramiko.auth_handler import AuthHandler
+    from paramiko.transport import Transport
+
+    def calls(tree):
+        return {n.func.attr for n in ast.walk(tree) if isinstance(n, ast.Call) and isinstance(n.func, ast.Attribute)}
+
+    tree = ast.parse(textwrap.dedent(inspect.getsource(Transport._verify_key)))
+    returns = [n.lineno for n in ast.walk(tree) if isinstance(n, ast.Return)]
+    if returns:
+        ctx.disagree("_verify_key-has-an-early-return", {"lines": returns}, "no return before verification",
+                     "return statement(s) at relative line(s) %r" % returns)
+    missing = {"_check_sig_algorithm", "verify_ssh_sig"} - calls(tree)
+    if missing:
+        ctx.disagree("_verify_key-does-not-call", {"missing": sorted(missing)}, "calls both", "missing %r" % sorted(missing))
+    tree = ast.parse(textwrap.dedent(inspect.getsource(AuthHandler._parse_userauth_request)))
+    missing = {"_generate_key_from_request", "_check_sig_algorithm", "verify_ssh_sig"} - calls(tree)
+    if missing:
+        ctx.disagree("publickey-branch-does-not-call", {"missing": sorted(missing)}, "calls all", "missing %r" % sorted(missing))
+    ctx.dist("source-facts-checked")
+
+
 # ------------------------------------------------------------------------------------------ client path
 def signature_variants(K, data, family, key=None):
     """(blob algorithm name bytes, body, flags, label) — every pairing of a name with a body"""
@@ -232,6 +260,11 @@ def client_path(ctx, K):
         for neg in RSA_NAMES + [n + SUFFIX for n in RSA_NAMES]:
             blob = K.cert["rsa"] if neg.endswith(SUFFIX) else K.rsa.asbytes()
             plans.append((dis, [neg], blob, "rsa", None))
+    # an EMPTY host-key blob (RFC 4462's "null host key" has no place in a non-GSS exchange): never accepted
+    for neg in ["rsa-sha2-512", "ssh-rsa", "rsa-sha2-256" + SUFFIX]:
+        plans.append(([], [neg], b"", "rsa", None))
+    plans.append(([], ["ssh-ed25519"], b"", "fixed", K.ed))
+    plans.append(([], ["ecdsa-sha2-nistp256"], b"", "fixed", K.ec["ecdsa-sha2-nistp256"]))
     # a disabled cert name, a server that offers several, a server that offers nothing we enable
     plans.append((["rsa-sha2-512" + SUFFIX], ["rsa-sha2-512" + SUFFIX, "ssh-rsa"], K.rsa.asbytes(), "rsa", None))
     plans.append((["rsa-sha2-512", "rsa-sha2-256"], ["rsa-sha2-512", "rsa-sha2-256", "ssh-rsa"], K.rsa.asbytes(), "rsa", None))
@@ -287,11 +320,15 @@ def client_path(ctx, K):
                                 ctx.disagree("verify_key-depends-on-recorded-host-key", {"negotiated": negotiated}, st, st2)
                         if st != "ok":
                             t.host_key = None
-                    if st == "ok" and (t.host_key is None or t.host_key.asbytes() != _k.asbytes()):
+                    if st == "ok" and _k is not None and (t.host_key is None or t.host_key.asbytes() != _k.asbytes()):
                         ctx.fail("host-key-not-recorded", {"negotiated": negotiated}, "host_key attribute not set")
                     impl = "%s %s" % (hx(negotiated.encode()), st)
                     # ---- oracle: an accepted signature names the negotiated algorithm, which is enabled
-                    if st == "ok":
+                    if st == "ok" and (not blob or _k is None):
+                        ctx.fail("host-key-signature-not-verified:empty-or-unparsed-host-key",
+                                 {"negotiated": negotiated, "host_key_blob": blob.hex(), "signature": label},
+                                 "_verify_key returned normally for a host key blob that is empty / does not parse")
+                    elif st == "ok":
                         want = base_name(negotiated).encode()
                         if name != want or base_name(negotiated) in dis or negotiated in dis:
                             ctx.fail("sig-algo-mismatch-accepted:kex",
@@ -719,6 +756,7 @@ def run(ctx):
               "key-blob parsing by the key classes (C35/C36) is a parameter of the model")
     ctx.build()
     K = Keys()
+    source_facts(ctx)
     tables(ctx)
     client_path(ctx, K)
     server_path(ctx, K)
